@@ -48,6 +48,10 @@ def scenarios(tier, rng):
     bsel = [[5, 7, 1], [5, 7, 0], [hex((1 << 100) - 1), hex((1 << 192) - 1), 1], [hex((1 << 100) - 1), hex((1 << 192) - 1), 0], [0, 0, 1]]
     for op in ("bigsel_mul", "bigsel_add", "bigsel_lower_than", "bigsel_swap_mul"):
         sc.append({"name": op + "100", "kind": "stdop", "op": op, "n": 100, "witnesses": bsel, "prove": op == "bigsel_mul"})
+    # the stateful map gadget: insertions that change the map, re-insertion of the stored value, the default value on an absent
+    # key, overwriting; lookups of present and absent keys
+    sc.append({"name": "map_insert", "kind": "stdop", "op": "map_insert", "n": 0, "witnesses": [[2, 7], [1, 5], [3, 0], [1, 6], [1, 0]], "prove": True})
+    sc.append({"name": "map_get", "kind": "stdop", "op": "map_get", "n": 0, "witnesses": [[1], [2], [0]]})
     for op, ws in [("nat_is_zero", [[0], [5], [-1]]), ("nat_inv0", [[0], [5], [-1]]),
                    ("nat_is_equal", [[0, 0], [5, 5], [3, 4], [-1, 0]]), ("nat_sgn0", [[0], [1], [-1], [2]])]:
         sc.append({"name": op, "kind": "stdop", "op": op, "n": 0, "witnesses": ws})
